@@ -163,6 +163,30 @@ Dump == IF Len(ops) = MaxOps /\ Interesting
                              <<[tags |-> tags, ops |-> ops]>>)
         ELSE TRUE
 GConstraint == GBound /\ Dump
+\* ---- a scenario family: the shape of the histories in which one user key ends up split over two files of a level ----
+\*   two small flushes (they settle in deeper levels), a memtable with big values and a snapshot between two versions of
+\*   a key, flush or reopen, a full level-0 compaction (its outputs are cut after every big entry), then - with or without
+\*   the snapshot - a ranged compaction of level 1 (chunked by size, expanded, extended by boundary files).
+\* The phase is a function of the history, parameters are chosen by TLC's simulation.
+NStruct == Cardinality({i \in 1..Len(ops) : ops[i].op \in {"flush", "reopen", "compact"}})
+MemN == Cardinality(mem)
+GNextF ==
+  \/ NStruct = 0 /\ MemN < 3 /\ \E k \in Keys : GPut(k)
+  \/ NStruct = 0 /\ MemN >= 1 /\ GFlush
+  \/ NStruct = 1 /\ MemN < 2 /\ \E k \in Keys : GPut(k)
+  \/ NStruct = 1 /\ MemN >= 1 /\ GFlush
+  \/ NStruct = 2 /\ MemN < 6 /\ \E k \in Keys : (GPut(k) \/ GPutBig(k) \/ GDel(k))
+  \/ NStruct = 2 /\ MemN >= 1 /\ MemN < 6 /\ GSnap
+  \/ NStruct = 2 /\ MemN >= 3 /\ (GFlush \/ GReopen)
+  \/ NStruct = 3 /\ (IF lv[0] # {} THEN GCompact(0, NoKey, NoKey) ELSE \E b \in Keys \cup {NoKey} : GCompact(1, b, NoKey))
+  \/ NStruct = 4 /\ GRel
+  \/ NStruct = 4 /\ \E level \in 1..2 : \E b, e \in Keys \cup {NoKey} : GCompact(level, b, e)
+GSpecF == GInit /\ [][GNextF]_gvars
+DumpF == IF NStruct = 5 /\ (tags \cap {"keysplit", "boundary0", "boundary1", "boundaryx", "expand", "chunked", "multiout"}) # {}
+         THEN ndJsonSerialize(OutDir \o "/f" \o ToString(TLCGet("stats").traces) \o "_" \o ToString(Cardinality(tags)) \o ".ndjson",
+                              <<[tags |-> tags, ops |-> ops]>>)
+         ELSE TRUE
+GConstraintF == GBound /\ DumpF
 \* ---- targeted generation: breadth-first search for the SHORTEST behaviours that reach a rare situation ----
 \* (run with VIEW GView so that the operation history does not split states, and with -continue to collect several)
 CONSTANT Target
